@@ -289,25 +289,6 @@ Definition pstep (m : kmem) (t : nat) (ph : phase) : kmem * phase :=
   end.
 
 (* ---- pstep is kstepC on the stack of the phase ---- *)
-Lemma cret_app m t c v :
-  forall m1 e1 s1, cret m t c v = (m1, e1, s1) ->
-  (let '(m2, e2, s2) := cret m t c v in (m2, e2, s2 ++ [])) = (m1, e1, s1).
-Proof. intros m1 e1 s1 E. rewrite E. now rewrite app_nil_r. Qed.
-
-Ltac crush_ret :=
-  repeat match goal with
-  | |- context [cret ?m ?t ?c ?v] =>
-      let E := fresh "E" in destruct (cret m t c v) as [[? ?] ?] eqn:E
-  end; cbn; rewrite ?app_nil_r; try rewrite !stack_of_start; auto.
-
-Definition sim_ok (m : kmem) (t : nat) (ph : phase) : Prop :=
-  fst (fst (kstepC m t (stack_of ph))) = fst (pstep m t ph) /\
-  snd (kstepC m t (stack_of ph)) = stack_of (snd (pstep m t ph)).
-
-Lemma junk_sim m t ph : fst (fst (kstepC m t (stack_of ph))) = fst (junk m t ph) /\
-                        snd (kstepC m t (stack_of ph)) = stack_of (snd (junk m t ph)).
-Proof. unfold junk. destruct (kstepC m t (stack_of ph)) as [[m1 e1] s1]. cbn. auto. Qed.
-
 Arguments ev : simpl never.
 Arguments l_state : simpl never. Arguments l_data : simpl never. Arguments l_next : simpl never.
 Arguments l_word : simpl never. Arguments l_head : simpl never. Arguments l_tail : simpl never.
@@ -316,18 +297,6 @@ Arguments tid_of_name : simpl never. Arguments Z.add : simpl never. Arguments Z.
 Arguments in_maint : simpl never. Arguments Z.ltb : simpl never. Arguments Z.eqb : simpl never. Arguments Z.leb : simpl never.
 
 Definition noev (x : kmem * list Z * stack cc) : kmem * stack cc := (fst (fst x), snd x).
-
-Ltac brk :=
-  repeat match goal with
-  | |- context [match ?x with _ => _ end] =>
-      match type of x with
-      | bool => destruct x eqn:?
-      | nat => destruct x eqn:?
-      | option _ => destruct x eqn:?
-      | prod _ _ => destruct x as [? ?] eqn:?
-      | spinpos => destruct x eqn:?
-      end; cbn
-  end.
 
 Ltac ret_destr :=
   repeat match goal with
@@ -453,3 +422,66 @@ Proof.
   pose proof (yield_sim m t yp r) as Y. unfold yield_sim_P in Y.
   destruct (yield_step m t yp) as [m1 [yp'| |]]; auto.
 Qed.
+
+Lemma ret_client m t c v :
+  noev (ret cc cret m t v [FC c]) = (fst (creturn m t c v), stack_of (snd (creturn m t c v))).
+Proof.
+  cbn. unfold creturn. destruct (cret m t c v) as [[m1 e1] s1]. cbn.
+  now rewrite app_nil_r, stack_of_start.
+Qed.
+
+Lemma noev_junk m t ph : noev (kstepC m t (stack_of ph)) = (fst (junk m t ph), stack_of (snd (junk m t ph))).
+Proof. unfold junk. destruct (kstepC m t (stack_of ph)) as [[m1 e1] s1]. reflexivity. Qed.
+
+Lemma noev_let (x : kmem * list Z * stack cc) (e : list Z) :
+  noev (let '(m1, e1, s1) := x in (m1, e ++ e1, s1)) = noev x.
+Proof. destruct x as [[? ?] ?]. reflexivity. Qed.
+
+Theorem pstep_sim m t ph :
+  noev (kstepC m t (stack_of ph)) = (fst (pstep m t ph), stack_of (snd (pstep m t ph))).
+Proof.
+  destruct ph as [| s | c kp].
+  - reflexivity.
+  - apply noev_junk.
+  - destruct kp as [| a | q lp | q wp | q up | q cnt wc kp].
+    + cbn. rewrite noev_let. apply ret_client.
+    + destruct a; cbn; rewrite noev_let; apply ret_client.
+    + destruct lp as [|wp].
+      * cbn. destruct (word m q - 1 =? 0); [|reflexivity]. rewrite noev_let. apply ret_client.
+      * cbn [stack_of kstack lock_stack pstep]. rewrite <- app_assoc. cbn [app].
+        pose proof (wait_sim m t q wp [LWaited; FC c]) as W. unfold wait_sim_P in W.
+        destruct (wait_step m t q wp) as [m1 [wp'| |]].
+        -- rewrite W. cbn [fst snd stack_of kstack lock_stack]. now rewrite <- app_assoc.
+        -- rewrite W. cbn [ret]. apply ret_client.
+        -- pose proof (noev_junk m t (PRun c (KLock q (LPWait wp)))) as J.
+           cbn [stack_of kstack lock_stack] in J. rewrite <- app_assoc in J. exact J.
+    + cbn [stack_of kstack pstep].
+      pose proof (wait_sim m t q wp [FC c]) as W. unfold wait_sim_P in W.
+      destruct (wait_step m t q wp) as [m1 [wp'| |]].
+      * rewrite W. reflexivity.
+      * rewrite W. apply ret_client.
+      * exact (noev_junk m t (PRun c (KWait q wp))).
+    + destruct up as [|wc kp|sp].
+      * cbn. destruct (word m q + 1 =? 1); [|reflexivity]. rewrite noev_let. cbn. apply ret_client.
+      * cbn [stack_of kstack unlock_stack pstep]. rewrite <- app_assoc. cbn [app].
+        pose proof (wake_sim m t q 1 wc kp [UWoke; UYield; FC c]) as W. unfold wake_sim_P in W.
+        change (in_maint [UWoke; UYield; FC c]) with false in W.
+        destruct (wake_step m t q 1 wc kp false) as [m1 [wc' kp'|v|]].
+        -- rewrite W. cbn [fst snd stack_of kstack unlock_stack]. now rewrite <- app_assoc.
+        -- rewrite W. reflexivity.
+        -- pose proof (noev_junk m t (PRun c (KUnlock q (UPWake wc kp)))) as J.
+           cbn [stack_of kstack unlock_stack] in J. rewrite <- app_assoc in J. exact J.
+      * destruct sp as [|st]; [reflexivity|].
+        cbn [pstep]. unfold waitingish.
+        destruct ((st =? ST_WAITING) || (st =? ST_DONE) || (st =? ST_SAVING)) eqn:Ew.
+        -- apply noev_junk.
+        -- cbn. rewrite Ew. rewrite noev_let. cbn. apply ret_client.
+    + cbn [stack_of kstack pstep].
+      pose proof (wake_sim m t q cnt wc kp [FC c]) as W. unfold wake_sim_P in W.
+      change (in_maint [FC c]) with false in W.
+      destruct (wake_step m t q cnt wc kp false) as [m1 [wc' kp'|v|]].
+      * rewrite W. reflexivity.
+      * rewrite W. apply ret_client.
+      * exact (noev_junk m t (PRun c (KWake q cnt wc kp))).
+Qed.
+Print Assumptions pstep_sim.
